@@ -633,9 +633,10 @@ def no_aliased_containers(ctx, rule, prefixes, floor, why):
 
 def negated_slice_bounds(ctx, rule, prefixes, lower_bounds, floor, why):
     """`x[-e:]` / `x[:-e]` mean "the last e" / "all but the last e" only for e >= 1: for e == 0 they are the WHOLE string / the EMPTY
-    string.  Every slice bound of the form -<expression> is put in linear form over the quantities whose (attained) lower bounds
-    are tabulated in `lower_bounds`; lower bound >= 1 discharges, <= 0 is a violation (the tabulated minimum is a supported
-    configuration), an untabulated quantity is undecided."""
+    string.  Every slice bound that is meant to count from the end - its linear form has only negative coefficients, e.g. `-e`,
+    `-(n - 1)`, `1 - n` - is evaluated at the tabulated (attained) minima of its quantities: if the bound can reach 0 there (or
+    become positive) it is a violation (the tabulated minimum is a supported configuration), < 0 discharges, an untabulated
+    quantity is undecided."""
     n = 0
     bad = False
     for rel, m in sorted(ctx.repo.modules.items()):
@@ -648,25 +649,33 @@ def negated_slice_bounds(ctx, rule, prefixes, lower_bounds, floor, why):
                     continue
                 n += 1
                 for b in (node.lower, node.upper):
-                    if not (isinstance(b, ast.UnaryOp) and isinstance(b.op, ast.USub)):
+                    if b is None or const(b) is not NOCONST:
                         continue
-                    if const(b.operand) is not NOCONST:
-                        continue
-                    e = expand(fn, b.operand, stores)
+                    e = expand(fn, b, stores)
                     l = lin(e)
                     q = '%s::%s' % (rel, q_)
-                    if l is None or any(a not in lower_bounds or c < 0 for a, c in l.t.items()):
-                        bad = True
-                        ctx.unk(rule, q, 'slice bound -(%s): no lower bound known for the expression' % U(e)[:60])
+                    neg_form = isinstance(b, ast.UnaryOp) and isinstance(b.op, ast.USub)
+                    if l is None:
+                        if neg_form:
+                            bad = True
+                            ctx.unk(rule, q, 'slice bound %s: not a linear expression' % U(e)[:60])
                         continue
-                    lb = l.c + sum(c * lower_bounds[a] for a, c in l.t.items())
-                    if lb >= 1:
-                        ctx.ok(rule, q, 'slice bound -(%s) with %s >= %s' % (U(e), U(e), lb))
+                    if not l.t or not all(c < 0 for c in l.t.values()):
+                        continue            # not a from-the-end bound
+                    if any(a not in lower_bounds for a in l.t):
+                        if neg_form or l.c > 0:
+                            bad = True
+                            ctx.unk(rule, q, 'slice bound %s: no lower bound known for %s' % (U(e)[:60], sorted(a for a in l.t if a not in lower_bounds)))
+                        continue
+                    top = l.c + sum(c * lower_bounds[a] for a, c in l.t.items())
+                    if top < 0:
+                        ctx.ok(rule, q, 'slice bound %s is at most %s' % (U(e), top))
                     else:
                         bad = True
-                        ctx.bad(rule, q, 'slice bound -(%s) can be -0' % U(e)[:60], why, {'lower_bound': lb, 'table': lower_bounds}, node)
+                        ctx.bad(rule, q, 'slice bound %s can be %s' % (U(e)[:60], '-0' if top == 0 else 'non-negative'), why,
+                                {'maximum': top, 'table': lower_bounds}, node)
     if ctx.floor(rule, prefixes[0], n, floor, 'slices in %s' % ', '.join(prefixes)) and not bad:
-        ctx.ok(rule, prefixes[0], 'no slice bound of the form -<expression> can be -0 (%d slices)' % n)
+        ctx.ok(rule, prefixes[0], 'no from-the-end slice bound can reach 0 (%d slices)' % n)
 
 
 def no_mutable_defaults(ctx, rule, prefixes, floor, why):
